@@ -25,12 +25,12 @@ type sthread struct {
 }
 
 type Sched struct {
-	x       *X
-	threads []*sthread
-	cur     *sthread
-	yield   chan *sthread
-	Trace   []string
-	steps   int
+	x        *X
+	threads  []*sthread
+	cur      *sthread
+	yield    chan *sthread
+	Trace    []string
+	steps    int
 	MaxSteps int
 	aborting bool
 }
